@@ -79,6 +79,8 @@ func ValidateKey(key []byte) error {
 // key should be either 16, 24, or 32 bytes to select AES-128,
 // AES-192, or AES-256.
 func (k *Keyring) AddKey(key []byte) error {
+	verifYield("keyring", nil)
+	defer verifYield("keyring", nil)
 	if err := ValidateKey(key); err != nil {
 		return err
 	}
@@ -105,6 +107,8 @@ func (k *Keyring) AddKey(key []byte) error {
 // UseKey changes the key used to encrypt messages. This is the only key used to
 // encrypt messages, so peers should know this key before this method is called.
 func (k *Keyring) UseKey(key []byte) error {
+	verifYield("keyring", nil)
+	defer verifYield("keyring", nil)
 	k.l.Lock()
 	defer k.l.Unlock()
 	for _, installedKey := range k.keys {
@@ -119,6 +123,8 @@ func (k *Keyring) UseKey(key []byte) error {
 // RemoveKey drops a key from the keyring. This will return an error if the key
 // requested for removal is currently at position 0 (primary key).
 func (k *Keyring) RemoveKey(key []byte) error {
+	verifYield("keyring", nil)
+	defer verifYield("keyring", nil)
 	k.l.Lock()
 	defer k.l.Unlock()
 
@@ -151,6 +157,8 @@ func (k *Keyring) installKeysLocked(keys [][]byte, primaryKey []byte) {
 
 // GetKeys returns the current set of keys on the ring.
 func (k *Keyring) GetKeys() [][]byte {
+	verifYield("keyring", nil)
+	defer verifYield("keyring", nil)
 	k.l.Lock()
 	defer k.l.Unlock()
 
@@ -160,6 +168,8 @@ func (k *Keyring) GetKeys() [][]byte {
 // GetPrimaryKey returns the key on the ring at position 0. This is the key used
 // for encrypting messages, and is the first key tried for decrypting messages.
 func (k *Keyring) GetPrimaryKey() (key []byte) {
+	verifYield("keyring", nil)
+	defer verifYield("keyring", nil)
 	k.l.Lock()
 	defer k.l.Unlock()
 	return k.getPrimaryKeyLocked()
